@@ -357,7 +357,7 @@ Section Deps.
         unfold end_create_ok, add_singleton in *. cbn [L1] in *.
         destruct (Nat.eq_dec c' n) as [->|Hcn].
         - (* the holder is n itself *)
-          pose proof (i_current st2 HI2 n k0 v0 Hin) as Hcur. unfold cur in Hcur.
+          pose proof (i_current st2 HI2 n k0 v0 I Hin) as Hcur. unfold cur in Hcur.
           destruct (alookup (owner v0) (L1 (reg st2))) as [pv'|] eqn:E1.
           + left. split; [rewrite (alookup_aset_neq n (owner v0) pv _ Hne), E1; discriminate|].
             rewrite Hblock. apply older_block_new; [exact Hne|exact Hsn1].
@@ -497,7 +497,7 @@ Proof.
   intros H3 H7 H8 H10 Hp Hs H n Hc.
   destruct (proj2 (run_core_DN vt s st H3 H7 H8 H10 Hp Hs H) n Hc) as [Hr|[a [Ha [Hca Hd]]]]; [left; exact Hr|].
   right. exists a. split; [exact Ha|]. split; [|exact Hd].
-  destruct (run_core_top vt s st H3 H) as [HI Hcr]. unfold cached in Hca.
+  destruct (run_core_top (P:=anyk) vt s st H3 H) as [HI Hcr]. unfold cached in Hca.
   destruct (alookup a (L1 (reg st))); [discriminate|]. cbn [isSome orb] in Hca.
   pose proof (i_early_creating st HI a Hca) as Hin. rewrite Hcr in Hin. contradiction.
 Qed.
